@@ -54,7 +54,7 @@ func initAllow(path string) bool {
 	case "unicode", "unicode/utf8", "unicode/utf16", "strings", "bytes", "strconv", "sort", "slices", "maps", "math", "math/bits",
 		"regexp", "regexp/syntax", "encoding/base64", "encoding/hex", "net/url", "io", "io/fs", "path", "path/filepath",
 		"google.golang.org/protobuf/encoding/protowire", "google.golang.org/protobuf/internal/errors",
-		"internal/byteorder", "internal/strconv", "internal/itoa", "internal/stringslite", "cmp", "iter", "html", "encoding/binary",
+		"internal/byteorder", "internal/godebugs", "internal/strconv", "internal/itoa", "internal/stringslite", "cmp", "iter", "html", "encoding/binary",
 		"container/list", "container/heap", "text/tabwriter", "bufio", "internal/oserror", "context", "unique":
 		return true
 	}
